@@ -192,7 +192,7 @@ Fixpoint disagree (en : env) (t : uexpr) : list string :=
       (if val_eqb (cast_to ty (ueval en a)) (cast_spark ty (ueval en a)) then [] else ["cast"])
   | UBetween a b d => disagree en a ++ disagree en b ++ disagree en d
   | USubstr a b d => disagree en a ++ disagree en b ++ disagree en d ++
-      (if val_eqb (substr3 substr_duck (ueval en a) (ueval en b) (ueval en d))
+      (if val_eqb (substr3 substr_duck (ueval en a) (if is_zero_start b then VInt 1 else ueval en b) (ueval en d))
                   (substr3 substr_spark (ueval en a) (ueval en b) (ueval en d)) then []
        else match ueval en b with VInt 0 => ["substr"] | _ => ["substrneg"] end)
   | UWhen bs => disagreeb en bs
